@@ -81,7 +81,7 @@ def run_vh(args, race=False, timeout=3600, env=None, stdin=None, check=True):
                            text=True, timeout=timeout)
     except subprocess.TimeoutExpired:
         raise Infra("harness timed out: vh " + " ".join(args))
-    if check and p.returncode != 0:
+    if check and p.returncode != 0 and not (race and p.returncode == 66):      # 66: the race detector reported something
         raise Infra("harness failed (rc=%d): vh %s\n%s" % (p.returncode, " ".join(args), p.stderr[-4000:]))
     return p
 
